@@ -221,6 +221,7 @@ func (vm *VM) resetPath() {
 	vm.main = nil
 	vm.steps = 0
 	vm.preempts = 0
+	vm.switches = 0
 	vm.nextID = 0
 	vm.timers = nil
 	vm.now = IntV{}
